@@ -138,7 +138,9 @@ def cse(expressions, cse_concat=True, cse_in_brackets=False, verbose=False):
             return x.ndim
 
     common_exprs = [
-        common_expr for common_expr in common_exprs if not (is_at_root(common_expr[0][0]) and (get_len(common_expr[0]) > 1 or get_len(common_expr[0][0]) > 1))
+        common_expr
+        for common_expr in common_exprs
+        if not any(is_at_root(exprlist[0]) and (get_len(exprlist) > 1 or get_len(exprlist[0]) > 1) for exprlist in common_expr)
     ]
 
     if verbose:
